@@ -1,7 +1,7 @@
 (* C01 - executable model of the aspif writer AspifOutput (src/aspif.cpp): the bytes put on the
    std::ostream by every AbstractProgram call.  One function per add(...) overload; every directive
    writer lists its fields in the order of the add(...) chain in the source.  Definitions only.   *)
-Require Import V.Lib.Base V.Lib.Calls V.Lib.Dec V.Gen.Consts.
+Require Import V.Lib.Base V.Lib.Calls V.Lib.Dec V.Gen.Consts V.Gen.Consts_C01.
 Local Open Scope Z_scope.
 
 (* static_cast<int>(x) of a 32-bit unsigned value *)
@@ -20,9 +20,8 @@ Definition add_str (s : list Z) : list Z :=                           (* add(con
   32 :: print_nat (Z.of_nat (length s)) ++ 32 :: s.
 Definition end_dir : list Z := [10].
 
-Definition hdr_text : list Z :=                                       (* "asp 1 0 0" *)
-  [97; 115; 112; 32] ++ print_nat aspif_major ++ [32] ++ print_nat aspif_minor ++ [32] ++ print_nat aspif_rev.
-Definition inc_text : list Z := [32; 105; 110; 99; 114; 101; 109; 101; 110; 116; 97; 108].   (* " incremental" *)
+Definition hdr_text : list Z := wr_header.          (* "asp 1 0 0"    : regenerated from AspifOutput::initProgram *)
+Definition inc_text : list Z := wr_incremental.     (* " incremental" *)
 
 Definition write_call (c : call) : list Z :=
   match c with
